@@ -54,6 +54,9 @@ type params struct {
 	FaultTimes   int      `json:"fault_times,omitempty"`
 	// enumeration bounds
 	MaxPoints int  `json:"max_points,omitempty"`
+	// GapParked: the first gap upload (started after the crash of the first build) is held inside the write of its
+	// descriptor while the resumed build runs: it commits only after the resumed scan
+	GapParked bool `json:"gap_upload_commits_after_the_resume,omitempty"`
 	Second    bool `json:"second_crash,omitempty"` // crash the resumed build as well (PRNG point)
 }
 
@@ -133,9 +136,10 @@ func gen13(seed int64, tier string) []drv.Case {
 					p.Mid = append(p.Mid, mk())
 				}
 			case "crash":
-				if r.Intn(2) == 0 {
+				if r.Intn(2) == 0 || i%4 == 1 {
 					p.Gap = append(p.Gap, mk())
 				}
+				p.GapParked = i%4 == 1
 			case "fault":
 				build := []string{"blob-get", "meta-get-filelist", "meta-get-descriptor", "index-put", "index-delete", "meta-list"}
 				del := []string{"index-list", "index-get", "blob-list", "blob-getattr", "blob-delete"}
@@ -547,8 +551,30 @@ func (s *scen) exec(base *coreh.Env, protected []*bref, pl plan) execInfo {
 		} else {
 			res.Stat("builds_reporting_failure", 1)
 		}
+		var parkedGate *memstore.Gate
+		var parkedDone chan bool
 		if attempt == 1 {
-			for _, u := range s.p.Gap {
+			for gi, u := range s.p.Gap {
+				// (when the crash hit the very first write of the build before it landed, nothing in the store tells that an
+				// index was ever started: the resumed job IS the first build, an upload straddling its start is outside the
+				// property — such an upload is run to completion before the resume instead)
+				if gi == 0 && s.p.GapParked && out.died && !(pl.crashK == 1 && !pl.crashAfter) {
+					// this upload writes its blobs now and commits only after the resumed build has scanned the bundles
+					ua := memstore.NewActor("uploader-straddling-the-resume")
+					parkedGate = ua.GateWhen(func(c memstore.Call) bool {
+						return strings.HasSuffix(c.Key, "/bundle.yaml") && (c.Op == "put" || c.Op == "putx")
+					})
+					parkedDone = make(chan bool, 1)
+					u := u
+					go func() { parkedDone <- lateUpload(ua, u, "started-after-the-crash-committed-after-the-resume") }()
+					select {
+					case <-parkedGate.Parked():
+						res.Stat("uploads_held_across_the_resume", 1)
+					case ok := <-parkedDone:
+						parkedDone <- ok
+					}
+					continue
+				}
 				if !lateUpload(memstore.NewActor("uploader"), u, "between-crash-and-resume") {
 					return info
 				}
@@ -564,6 +590,12 @@ func (s *scen) exec(base *coreh.Env, protected []*bref, pl plan) execInfo {
 		ba = ra
 		if resume {
 			res.Stat("builds_resumed", 1)
+		}
+		if parkedGate != nil {
+			parkedGate.Release()
+			if !<-parkedDone {
+				return info
+			}
 		}
 	}
 	res.Stat("builds_succeeded", 1)
